@@ -196,7 +196,14 @@ class ManifestFileEntry(ManifestPathEntry):
                 and self.size == other.size
                 and self.checksums == other.checksums)
 
-    # for the purpose of __lt__, the path is good enough for sorting
+    def __lt__(self, other):
+        # the path is good enough for sorting, unless there are two
+        # entries for the same path (e.g. DIST entries of one name):
+        # then the order must not depend on their previous order
+        if self.tag != other.tag or self.path != other.path:
+            return super().__lt__(other)
+        return ((self.size, sorted(self.checksums.items()))
+                < (other.size, sorted(other.checksums.items())))
 
 
 class ManifestEntryMANIFEST(ManifestFileEntry):
